@@ -483,9 +483,6 @@ def request_ids(steps) -> List[Any]:
     return rids
 
 
-JUDGE_DUPLICATE_SESSION_HEADER = False   # see the report: the current tree sends the caller's differently spelled header AND its own
-
-
 def judge(steps, rids, got_per_step, posts, initial_session=None, session_lines=None):
     """posts: [(json body, lower-cased headers)] of the POSTs in order.  Returns (summary, violations)."""
     viol: List[dict] = []
@@ -524,8 +521,7 @@ def judge(steps, rids, got_per_step, posts, initial_session=None, session_lines=
         vals = session_lines[n] if session_lines is not None and n < len(session_lines) else None
         if vals is not None and len(vals) > 1:
             # several session header lines on the wire (names compared case-insensitively)
-            if JUDGE_DUPLICATE_SESSION_HEADER:
-                bad("several-session-headers-on-the-wire", f"POST carried {len(vals)} Mcp-Session-Id lines: {vals}")
+            bad("several-session-headers-on-the-wire", f"POST carried {len(vals)} Mcp-Session-Id lines: {vals}")
             if want_hdr not in vals:
                 bad("session-header", f"POST carried Mcp-Session-Id lines {vals}, none is the most recently issued {want_hdr!r}")
         elif have_hdr != want_hdr:
@@ -1162,9 +1158,7 @@ def run(tier: str, only=None) -> core.Result:
         "distinct = distinct observation digests"
     )
     res.assumptions = [
-        "when the caller configures a session header under another spelling than the transport's own, the current tree sends "
-        "BOTH lines (the caller's and the issued one): reported as an open observation, judged only as 'the most recently issued id "
-        "is among them' until JUDGE_DUPLICATE_SESSION_HEADER is set",
+        "exactly one session header line goes on the wire (names compared case-insensitively), carrying the most recent id issued",
         "a leading BOM in a JSON body may be ignored or rejected (RFC 8259): its messages or a synthesised terminal are accepted",
         "for a content type other than JSON/event-stream the statement does not say how the body is read: its messages or a synthesised terminal are both accepted",
         "an SSE event not terminated by a blank line at end of body may be delivered or discarded (the WHATWG grammar discards it)",
